@@ -247,6 +247,79 @@ def make_persist():
     return factory
 
 
+# ---------------------------------------------------------------- every route that persists fixes honours the suffix
+PERSIST_ROUTES = ["lint_paths_apply_fixes", "deferred_persist_changes", "cli_fix", "cli_fix_check_yes"]
+SRC = "SELECT  1 AS a\n"
+FIXED = "SELECT 1 AS a\n"
+
+
+def run_persist_route(route, suffix, n_files):
+    """Returns a description of what is wrong, or None. Real files, real Linter / real CLI."""
+    import os
+    import shutil
+    import tempfile
+    from sqlfluff.core import FluffConfig, Linter
+    d = os.path.realpath(tempfile.mkdtemp(prefix="c26r_"))
+    try:
+        names = [f"f{i}.sql" for i in range(n_files)]
+        for n in names:
+            open(os.path.join(d, n), "w", newline="").write(SRC)
+        paths = tuple(os.path.join(d, n) for n in names)
+        if route == "lint_paths_apply_fixes":
+            Linter(config=FluffConfig(overrides={"dialect": "ansi", "rules": "LT01"})).lint_paths(
+                paths, fix=True, apply_fixes=True, fixed_file_suffix=suffix)
+        elif route == "deferred_persist_changes":
+            res = Linter(config=FluffConfig(overrides={"dialect": "ansi", "rules": "LT01"})).lint_paths(
+                paths, fix=True, apply_fixes=False, retain_files=True)
+            res.persist_changes(formatter=None, fixed_file_suffix=suffix)
+        else:
+            from click.testing import CliRunner
+            from sqlfluff.cli import commands as cmds
+            args = ["fix", *paths, "--dialect", "ansi", "--rules", "LT01"] + (["--fixed-suffix", suffix] if suffix else [])
+            args += ["--check"] if route == "cli_fix_check_yes" else []
+            CliRunner().invoke(cmds.cli, args, input="y\n" if route == "cli_fix_check_yes" else None)
+        problems = []
+        expect = set(names) | ({n[:-4] + suffix + ".sql" for n in names} if suffix else set())
+        got = set(os.listdir(d))
+        if got != expect:
+            problems.append(f"directory holds {sorted(got)}, expected {sorted(expect)}")
+        for n in names:
+            orig = open(os.path.join(d, n), newline="").read()
+            if suffix:
+                if orig != SRC:
+                    problems.append(f"{n} was modified although --fixed-suffix {suffix!r} was given")
+                out = os.path.join(d, n[:-4] + suffix + ".sql")
+                if os.path.exists(out) and open(out, newline="").read() != FIXED:
+                    problems.append(f"{os.path.basename(out)} does not hold the fixed text")
+            elif orig != FIXED:
+                problems.append(f"{n} holds {orig!r}, expected the fixed text")
+        return "; ".join(problems) or None
+    finally:
+        shutil.rmtree(d, ignore_errors=True)
+
+
+def make_persist_routes():
+    def factory(excluded=frozenset()):
+        def harness(c):
+            route = choose(c, "route", PERSIST_ROUTES)
+            suffix = choose(c, "suffix", ["", "_fixed"])
+            n_files = int(fresh_int(c, "files", 1, 2))
+            if suffix:
+                c.witness("suffix_given")
+            if route == "deferred_persist_changes":
+                c.witness("deferred")
+            return run_persist_route(route, suffix, n_files) is None
+        return harness
+    return factory
+
+
+def replay_persist_routes(cex):
+    route = PERSIST_ROUTES[int(cex.get("route", 0))]
+    suffix = ["", "_fixed"][int(cex.get("suffix", 0))]
+    p = run_persist_route(route, suffix, int(cex.get("files", 1)))
+    return f"route {route}, fixed-suffix {suffix!r}: {p}" if p else None
+
+
 def units(tier, seed):
     return [
         Unit(name="c26.safe_create_replace_file", functions=["sqlfluff.core.linter.linted_file.LintedFile._safe_create_replace_file"],
@@ -255,6 +328,11 @@ def units(tier, seed):
              stubs=["os/shutil/tempfile as seen by linted_file -> counting proxies over the REAL functions on a real temp directory; "
                     "the fault raises OSError / KeyboardInterrupt, writes half the buffer first, or os._exit()s in a forked child"],
              witnesses_required=["success"] + ["fault_" + k for k in KINDS], sharded=True, timeout_s=900),
+        Unit(name="c26.persist_routes", functions=["sqlfluff.core.linter.linter.Linter.lint_paths (apply_fixes)", "LintingResult.persist_changes",
+                                                   "LintedDir.persist_changes", "sqlfluff.cli.commands.fix / do_fixes (--check)", "LintedFile.persist_tree"],
+             bounds={"route": PERSIST_ROUTES, "fixed-suffix": "none / _fixed", "files": "1..2"}, make=make_persist_routes(), replay=replay_persist_routes,
+             stubs=["none: real files, real Linter and real CLI (click CliRunner)"], outside=["format command", "stdin routes (nothing is persisted)"],
+             witnesses_required=["suffix_given", "deferred"], sharded=True, timeout_s=600),
         Unit(name="c26.persist_tree_gate", functions=["sqlfluff.core.linter.linted_file.LintedFile.persist_tree"],
              bounds={"fixable violations": "present/absent", "fix changes text": "both", "suffix": "none/.fixed/_fix",
                      "file stem": "q / q.fixed / hot_fix / _fix (incl. stems that already end with the suffix)"},
